@@ -259,6 +259,23 @@ def run(ctx, rep):
             k_ += 1
             rep.ob("C08.target-once", o["instance"], o["status"], o["detail"], o["where"], key=o["key"].replace("C15.once", "C08.target-once", 1), fn=o.get("fn"))
     rep.floor("C08.target-once compound-assignment shapes", k_, 2)
+    # reading a field does not change it: the only handlers that write through a field / element view are the two assignment instructions
+    # (`a.f = v`: ptr_mut -> HeapPrimitive::set; `a.f op= v`: bin_op_assign -> HeapPrimitive::update).  A reading instruction that "avoids a clone" by
+    # going through update (`neg` on a view: `-self.balance`) writes its result back into the object.
+    WRITERS = {"ptr_mut": ("set",), "bin_op_assign": ("update",)}
+    nw = 0
+    for g in F.crates["bytecode"].fns:
+        for c in g.calls():
+            n_ = mir.short(c.callee())
+            if not (n_.startswith("HeapPrimitive::") and n_.split("::")[-1] in ("update", "set")):
+                continue
+            nw += 1
+            owner = g.path.split("::{")[0].split("::")[-1]
+            okw = g.path.startswith("bytecode::instruction::implementations::") and n_.split("::")[-1] in WRITERS.get(owner, ())
+            rep.ob("C08.view-writers", "%s writes through a field / element view with %s" % (mir.short(g.path), n_), "ok" if okw else "violated",
+                   "" if okw else "only the assignment instructions write through a view: `-obj.f` (or whatever this handler evaluates) stores its result into the field it read, "
+                   "visible through every alias of the object", c.span, fn=g.path, key="C08.view-writers|%s|%s" % (mir.short(g.path), n_))
+    rep.floor("C08.view-writers write-through sites", nw, 2)
     # `x.m(args)` keeps the receiver in a register while the arguments are compiled; `ld_self` reads it back.  The method runs on x only if nothing else
     # is given that register meanwhile: every register the generators write was reserved from the counter (C07's walk of the store_fast emissions)
     from props import C07 as _c07
